@@ -21,13 +21,13 @@ open AL Keys Paginate
 variable {α : Type}
 
 /-- **Paging by key is complete and duplicate-free.**  For any store section given as a map with
-pairwise distinct, non-empty keys, any filter and any page limit `1 ≤ L < 2^64`: a first request without
+pairwise distinct, non-empty keys, any filter and any page limit `1 ≤ L < 2^64 − 1`: a first request without
 key followed by requests carrying the previous `next_key`, until `next_key` is empty, returns — as the
 concatenation of the pages — a list that (a) is exactly the matching entries in ascending key order and
 (b) is a permutation of the matching entries of the map: every stored item that matches, exactly once,
 and nothing else. -/
 theorem c20_pages_partition_by_key (kvs : List (Bytes × α)) (hd : (kvs.map (·.1)).Nodup) (hne : ∀ e ∈ kvs, e.1 ≠ [])
-    (h : Bytes → α → Bool) (L : Nat) (hL : 1 ≤ L) (hL' : L < two64) :
+    (h : Bytes → α → Bool) (L : Nat) (hL : 1 ≤ L) (hL' : L + 1 < two64) :
     ∃ pages, walkKeys (sortKV kvs) (fun k v => some (h k v)) L ((sortKV kvs).length + 2) [] = some pages ∧
       pages = (hitsOf h (sortKV kvs)).map (·.2) ∧
       pages.Perm ((kvs.filter (fun e => h e.1 e.2)).map (·.2)) := by
@@ -40,7 +40,7 @@ pages is exactly the matching entries in descending key order — a permutation 
 map.  (A reverse request carrying the key of the top entry is an error of the SDK helper; a walk never sends
 one: `Paginate.key_page_rev_top`.) -/
 theorem c20_pages_partition_by_key_reverse (kvs : List (Bytes × α)) (hd : (kvs.map (·.1)).Nodup) (hne : ∀ e ∈ kvs, e.1 ≠ [])
-    (h : Bytes → α → Bool) (L : Nat) (hL : 1 ≤ L) (hL' : L < two64) :
+    (h : Bytes → α → Bool) (L : Nat) (hL : 1 ≤ L) (hL' : L + 1 < two64) :
     ∃ pages, walkKeysRev (sortKV kvs) (fun k v => some (h k v)) L ((sortKV kvs).length + 2) [] = some pages ∧
       pages = ((hitsOf h (sortKV kvs)).map (·.2)).reverse ∧
       pages.Perm ((kvs.filter (fun e => h e.1 e.2)).map (·.2)) := by
@@ -54,7 +54,7 @@ theorem c20_pages_partition_by_key_reverse (kvs : List (Bytes × α)) (hd : (kvs
 /-- **Paging by offset.**  The page at offset `o` with limit `L` is exactly the matching entries number
 `o … o+L-1` in key order, so the pages at offsets `0, L, 2L, …` partition the matching entries. -/
 theorem c20_pages_partition_by_offset (kvs : List (Bytes × α)) (h : Bytes → α → Bool) (o L : Nat) (hL : 1 ≤ L)
-    (hfit : o + L < two64) :
+    (hfit : o + L + 1 < two64) :
     (filtered (sortKV kvs) { offset := o, limit := L } (fun k v => some (h k v))).map (·.items) =
       some ((((hitsOf h (sortKV kvs)).map (·.2)).drop o).take L) :=
   offset_page (sortKV kvs) h o L hL hfit
@@ -68,6 +68,18 @@ theorem drop_take_partition {β : Type} (l : List β) (L : Nat) (hL : 1 ≤ L) :
     rw [List.range_succ, List.map_append, List.flatten_append, ih]
     simp only [List.map_cons, List.map_nil, List.flatten_cons, List.flatten_nil, List.append_nil]
     rw [Nat.succ_mul, List.take_add]
+
+/-- The one page size left out above, `limit = 2^64 − 1` (`query.MaxLimit`): the SDK computes `end + 1` in uint64, which
+wraps to 0, so the first (offset) page stops after the first store entry it looks at unless that entry is a hit — it may
+return nothing and a `next_key` although matching entries follow.  Following that `next_key` (a key request, which has no
+such arithmetic) returns them all: nothing is lost or repeated over the walk, the first page is merely short.  Concrete
+instance (the model transcribes the wrap: `addU64 end_ 1`; the real application behaves identically in the query engine). -/
+example :
+    filtered [([1], "a"), ([2], "b")] { limit := 18446744073709551615 } (fun k _ => some (decide (k = [2]))) =
+      some { items := [], next := [1], total := 0 } ∧
+    filtered [([1], "a"), ([2], "b")] { key := [1], limit := 18446744073709551615 } (fun k _ => some (decide (k = [2]))) =
+      some { items := ["b"], next := [], total := 0 } := by
+  constructor <;> rfl
 
 /-- a request with both a key and a non-zero offset is refused -/
 theorem c20_key_and_offset_rejected (kvs : List (Bytes × α)) (req : Req) (hit : Bytes → α → Option Bool)
@@ -104,7 +116,7 @@ theorem poStore_keys (e : EntState) (hi : BookInv e) (hq : e.nextId < two64) :
 filter and any limit returns every stored order that matches the filter exactly once, in ascending id
 order, and nothing else. -/
 theorem c20_purchase_orders_walk (g : GenCfg) (s : State) (hr : FineReach g EntQ s) (hq : EntQ s)
-    (status : Int) (purchaser : AddrTok) (L : Nat) (hL : 1 ≤ L) (hL' : L < two64) :
+    (status : Int) (purchaser : AddrTok) (L : Nat) (hL : 1 ≤ L) (hL' : L + 1 < two64) :
     let hit : Bytes → PO → Bool := fun _ po =>
       (status = 0 || decide ((po.status : Int) = status)) && (decide (purchaser = .empty) || Query.eqFold po.purchaser purchaser)
     ∃ pages, walkKeys (Query.poStore s.ent) (fun k v => some (hit k v)) L ((Query.poStore s.ent).length + 2) [] = some pages ∧
@@ -163,7 +175,7 @@ theorem regList_eq (r : RegState) (moniker : String) (owner : AddrTok) (ho : own
 owner filter and any limit returns every registration that matches exactly once, in ascending id order, and
 nothing else — in every state of every run. -/
 theorem c20_registrations_walk (r : RegState) (hi : RegInv r) (hq : r.nextId < two64)
-    (moniker : String) (owner : AddrTok) (L : Nat) (hL : 1 ≤ L) (hL' : L < two64) :
+    (moniker : String) (owner : AddrTok) (L : Nat) (hL : 1 ≤ L) (hL' : L + 1 < two64) :
     ∃ pages, walkKeys (Query.regStore r) (fun k v => some (regHit moniker owner k v)) L ((Query.regStore r).length + 2) [] = some pages ∧
       pages.Perm ((r.regs.map (·.2)).filter (fun m => regHit moniker owner [] m)) := by
   obtain ⟨h1, h2⟩ := regStore_keys r hi hq
@@ -173,13 +185,13 @@ theorem c20_registrations_walk (r : RegState) (hi : RegInv r) (hq : r.nextId < t
   exact List.Perm.refl _
 
 theorem c20_wrkchains_walk (g : GenCfg) (hg : GenRegValid g) (s : State) (hr : FineReach g WrkQ s) (hq : WrkQ s)
-    (moniker : String) (owner : AddrTok) (L : Nat) (hL : 1 ≤ L) (hL' : L < two64) :
+    (moniker : String) (owner : AddrTok) (L : Nat) (hL : 1 ≤ L) (hL' : L + 1 < two64) :
     ∃ pages, walkKeys (Query.regStore s.wrk) (fun k v => some (regHit moniker owner k v)) L ((Query.regStore s.wrk).length + 2) [] = some pages ∧
       pages.Perm ((s.wrk.regs.map (·.2)).filter (fun m => regHit moniker owner [] m)) :=
   c20_registrations_walk s.wrk (wrkInv_reachable g hg s hr).reg (by unfold WrkQ RegBounded at hq; omega) moniker owner L hL hL'
 
 theorem c20_beacons_walk (g : GenCfg) (hg : GenRegValid g) (s : State) (hr : FineReach g BcnQ s) (hq : BcnQ s)
-    (moniker : String) (owner : AddrTok) (L : Nat) (hL : 1 ≤ L) (hL' : L < two64) :
+    (moniker : String) (owner : AddrTok) (L : Nat) (hL : 1 ≤ L) (hL' : L + 1 < two64) :
     ∃ pages, walkKeys (Query.regStore s.bcn) (fun k v => some (regHit moniker owner k v)) L ((Query.regStore s.bcn).length + 2) [] = some pages ∧
       pages.Perm ((s.bcn.regs.map (·.2)).filter (fun m => regHit moniker owner [] m)) :=
   c20_registrations_walk s.bcn (bcnInv_reachable g hg s hr).reg (by unfold BcnQ RegBounded at hq; omega) moniker owner L hL hL'
@@ -225,7 +237,7 @@ theorem streamStore_keys (tbl : List (Addr × Bytes)) (st : StreamState) (ht : A
 that sender) by key with any limit returns every matching stream exactly once and nothing else — whatever the
 byte lengths of the addresses involved. -/
 theorem c20_streams_walk (tbl : List (Addr × Bytes)) (st : StreamState) (ht : AddrTableOK tbl st) (hn : NoDupKeys st.streams)
-    (hit : Query.StreamItem → Bool) (L : Nat) (hL : 1 ≤ L) (hL' : L < two64) :
+    (hit : Query.StreamItem → Bool) (L : Nat) (hL : 1 ≤ L) (hL' : L + 1 < two64) :
     ∃ pages, walkKeys (Query.streamStore tbl st) (fun _ v => some (hit v)) L ((Query.streamStore tbl st).length + 2) [] = some pages ∧
       pages.Perm (st.streams.filter hit) := by
   obtain ⟨h1, h2⟩ := streamStore_keys tbl st ht hn
@@ -240,7 +252,7 @@ theorem c20_streams_walk (tbl : List (Addr × Bytes)) (st : StreamState) (ht : A
 /-- **Streams by receiver** (a prefix scan of the receiver's section): every stream of that receiver exactly
 once, and no stream of any other receiver. -/
 theorem c20_streams_by_receiver_walk (tbl : List (Addr × Bytes)) (st : StreamState) (ht : AddrTableOK tbl st)
-    (hn : NoDupKeys st.streams) (ra : Addr) (L : Nat) (hL : 1 ≤ L) (hL' : L < two64) :
+    (hn : NoDupKeys st.streams) (ra : Addr) (L : Nat) (hL : 1 ≤ L) (hL' : L + 1 < two64) :
     let sect := sortKV ((st.streams.filter (fun x => x.1.1 = ra)).map (fun x => (Query.lp (Query.addrBytes tbl x.1.2), x)))
     ∃ pages, walkKeys sect (fun _ _ => some true) L (sect.length + 2) [] = some pages ∧
       pages.Perm (st.streams.filter (fun x => x.1.1 = ra)) := by
